@@ -396,6 +396,8 @@ class OpsMixin(object):
             gi = base.ci.lookup("__getitem__")
             if gi is not None:
                 return self.call_function(FuncV(gi, selfv=base), [idx], {}, node)
+        if isinstance(base, PyObjV):
+            return base.obj.getitem(self, idx)
         if isinstance(base, Phi):
             return make_phi(base.cond, self.getitem(base.a, idx, node), self.getitem(base.b, idx, node))
         if isinstance(base, SortedV):
